@@ -220,7 +220,7 @@ fn c14_truncated_too_big() {
     encode_truncated(1)
 }
 
-// verif: prop=C14 tier=quick cap=1500 rot=trunc bound="parameter problem encoded for a 1020-byte header, quoting a 220-byte offending packet" fns="ScmpParameterProblem::encode_unchecked with truncation" stubs="none"
+// verif: prop=C14 tier=quick cap=1500 bound="parameter problem encoded for a 1020-byte header, quoting a 220-byte offending packet" fns="ScmpParameterProblem::encode_unchecked with truncation" stubs="none"
 #[kani::proof]
 #[kani::unwind(130)]
 fn c14_truncated_param_problem() {
